@@ -1,6 +1,7 @@
 package main
 
 import (
+	"crypto/tls"
 	"fmt"
 	"net"
 	"sync"
@@ -16,14 +17,14 @@ func init() {
 	register(&Check{
 		ID: "C09", Level: "exploration", Primary: "connections", EvalCount: "requests_tagged",
 		Rule: "16..256 concurrent clients run open / k requests of mixed operations / close / reconnect cycles against one long-lived server; every request carries the client-side connection tag in a DN; idle, " +
-			"malformed-frame and instantly-closed connections are interleaved (they consume IDs too), followed by episodes in which Accept fails temporarily (descriptor exhaustion) between two tagged connections. Oracle: tag -> ConnectionID is a function (stable per connection) and injective over the whole server lifetime " +
+			"malformed-frame and instantly-closed connections are interleaved (they consume IDs too), followed by connections that are upgraded with StartTLS in the middle, by a long-lifetime phase (70 000+ short connections next to one long-lived one) and by episodes in which Accept fails temporarily (descriptor exhaustion) between two tagged connections. Oracle: tag -> ConnectionID is a function (stable per connection) and injective over the whole server lifetime " +
 			"(never reused, even after close), IDs > 0, and the ID passed to OnClose after a tagged connection ended is the one its handlers saw, exactly once. " +
 			"distinct_nontrivial = distinct tagged connections that issued at least two requests and were closed and reported via OnClose",
 		Assume: []string{"a connection is identified client-side by the tag it puts into its requests"},
 		Phases: func(tier string, seed int64) []Phase {
 			return []Phase{{Name: "cycles", Run: c09Run}}
 		},
-		MinObserved: []string{"requests_tagged", "reconnects_after_close", "onclose_ids_matched", "accept_failure_episodes"},
+		MinObserved: []string{"requests_tagged", "reconnects_after_close", "onclose_ids_matched", "accept_failure_episodes", "starttls_upgraded_connections", "short_lived_connections"},
 	})
 }
 
@@ -63,12 +64,17 @@ func c09Run(c *Ctx) {
 		}
 		replyFor(o, w, r)
 	}
+	pki := newPKI()
 	srv, err := startSrv(SrvCfg{}, func(m *gldap.Mux) {
 		m.Bind(handler)
 		m.Search(handler)
 		m.Modify(handler)
 		m.Add(handler)
 		m.Delete(handler)
+		m.ExtendedOperation(func(w *gldap.ResponseWriter, r *gldap.Request) {
+			w.Write(r.NewExtendedResponse(gldap.WithResponseCode(0)))
+			r.StartTLS(pki.ServerOnly)
+		}, gldap.ExtendedOperationStartTLS)
 	})
 	if err != nil {
 		c.Inconclusive("server start: " + err.Error())
@@ -79,7 +85,7 @@ func c09Run(c *Ctx) {
 	var connCtr atomic.Int64
 	var cur, maxCur atomic.Int64
 	var wg sync.WaitGroup
-	closedTags := make(chan string, totalConns+clients+100)
+	closedTags := make(chan string, totalConns+clients+1000)
 	for cl := 0; cl < clients; cl++ {
 		wg.Add(1)
 		go func(cl int) {
@@ -162,6 +168,77 @@ func c09Run(c *Ctx) {
 		}(cl)
 	}
 	wg.Wait()
+	// connections that are upgraded with StartTLS in the middle: the ID must not change across the upgrade
+	for i := 0; i < c.N(30, 400); i++ {
+		tag := fmt.Sprintf("tag=starttls-%d", i)
+		cn, err := net.Dial("tcp", srv.Addr)
+		if err != nil {
+			c.Inconclusive("dial: " + err.Error())
+			break
+		}
+		connCtr.Add(1)
+		totalConns++
+		cl := wrapClient(cn)
+		cl.Send(sber.Message(1, sber.BindRequest(3, []byte(tag), []byte("p")), nil).Encode())
+		cl.ReadMsg(patience)
+		cl.Send(sber.Message(2, sber.ExtendedRequest([]byte(sber.OIDStartTLS), nil, false), nil).Encode())
+		if _, err := cl.ReadMsg(patience); err != nil {
+			cn.Close()
+			continue
+		}
+		tc := tls.Client(cn, pki.ClientPlain)
+		cn.SetDeadline(time.Now().Add(patience))
+		if err := tc.Handshake(); err != nil {
+			cn.Close()
+			continue
+		}
+		cn.SetDeadline(time.Time{})
+		tcl := wrapClient(tc)
+		for k := 0; k < 2; k++ {
+			tcl.Send(sber.Message(int64(3+k), sber.Search{Base: []byte(tag), Scope: 2, Filter: sber.PresentFilter("cn"), Attrs: [][]byte{}}.Node(), nil).Encode())
+			tcl.ReadMsg(patience)
+		}
+		tc.Close()
+		closedTags <- tag
+		c.Count("starttls_upgraded_connections", 1)
+	}
+	// a long server lifetime: far more connections than any 16-bit counter holds, next to one long-lived tagged
+	// connection (closed with RST so that no TIME_WAIT sockets pile up)
+	if long, err := dialRaw(srv.Addr, nil); err == nil {
+		long.Send(sber.Message(1, sber.BindRequest(3, []byte("tag=long-lived"), []byte("p")), nil).Encode())
+		long.ReadMsg(patience)
+		connCtr.Add(1)
+		totalConns++
+		nShort := c.N(70000, 300000)
+		var swg sync.WaitGroup
+		var sctr atomic.Int64
+		for w := 0; w < 16; w++ {
+			swg.Add(1)
+			go func() {
+				defer swg.Done()
+				for {
+					i := sctr.Add(1)
+					if i > int64(nShort) {
+						return
+					}
+					kc, err := dialRaw(srv.Addr, nil)
+					if err != nil {
+						time.Sleep(10 * time.Millisecond)
+						continue
+					}
+					kc.Send(sber.Message(1, sber.BindRequest(3, []byte(fmt.Sprintf("tag=short-%d", i)), []byte("p")), nil).Encode())
+					kc.ReadMsg(patience)
+					kc.Reset()
+					c.Count("short_lived_connections", 1)
+				}
+			}()
+		}
+		swg.Wait()
+		long.Send(sber.Message(2, sber.BindRequest(3, []byte("tag=long-lived"), []byte("p")), nil).Encode())
+		long.ReadMsg(patience)
+		long.Close()
+		closedTags <- "tag=long-lived"
+	}
 	// accept-failure episodes: connection IDs must stay unique and positive when Accept fails temporarily
 	// (descriptor exhaustion) between two connections
 	extra := 0
@@ -217,13 +294,27 @@ func c09Run(c *Ctx) {
 		tags = append(tags, t)
 		nTagged++
 	}
-	// every tagged connection's OnClose must arrive; the episodes' held sockets may or may not have been accepted
-	want := int64(totalConns)
-	if !srv.WaitCloses(want, patience) {
-		c.Inconclusive(fmt.Sprintf("only %d of %d OnClose callbacks arrived", srv.closeCnt.Load(), want))
-	}
+	// every tagged connection has been closed by its client: wait (patience, not verdict) until an OnClose has been
+	// reported for each of their IDs
 	_ = extra
-	time.Sleep(200 * time.Millisecond)
+	for dl := time.Now().Add(patience); time.Now().Before(dl); time.Sleep(5 * time.Millisecond) {
+		seen := map[int]bool{}
+		for _, ev := range srv.Closes() {
+			seen[ev.ID] = true
+		}
+		missing := 0
+		mu.Lock()
+		for _, t := range tags {
+			if id, ok := tagID[t]; ok && !seen[id] {
+				missing++
+			}
+		}
+		mu.Unlock()
+		if missing == 0 {
+			break
+		}
+	}
+	time.Sleep(20 * time.Millisecond) // a duplicate OnClose would follow closely
 	closes := map[int]int{}
 	for _, ev := range srv.Closes() {
 		closes[ev.ID]++
